@@ -298,6 +298,7 @@ type World struct {
 	probeSeq         int
 	probeFaultsSaved bool
 	lostReplies      int
+	staleFips        []*FipInfo // entries of earlier listings an administrator may still act on
 	plan             *faultPlan
 	planFired        bool
 	recovering       bool
@@ -328,6 +329,12 @@ func newWorld(s *core.Sim, prop, tier string) *World {
 	s.OnPanic = w.onPanic
 	s.OnLockLeak = w.onLockLeak
 	s.Hide = func(t *core.Task) bool {
+		if t == w.periodicReload && t.AtSleep() && w.triggeredReloadInFlight() {
+			// the real daemon reloads from one goroutine only: the periodic reload does not start next to a reload that
+			// the world triggered through the hook (simulated time creeps forward with every call, so guarding the
+			// explicit clock advance alone is not enough)
+			return true
+		}
 		until, ok := w.stalled[t]
 		if !ok {
 			return false
@@ -455,12 +462,19 @@ func (w *World) slowReply(t *core.Task) {
 	}
 }
 
-// reloadInFlight: a configuration reload (triggered through the hook, or the periodic one) is running.
-func (w *World) reloadInFlight() bool {
+func (w *World) triggeredReloadInFlight() bool {
 	for _, t := range w.inflight {
 		if t.Tag == "reload" && !w.taskDone(t) {
 			return true
 		}
+	}
+	return false
+}
+
+// reloadInFlight: a configuration reload (triggered through the hook, or the periodic one) is running.
+func (w *World) reloadInFlight() bool {
+	if w.triggeredReloadInFlight() {
+		return true
 	}
 	if t := w.periodicReload; t != nil && t.Proc == w.proc && !w.taskDone(t) && !t.Sleeping() {
 		return true
